@@ -182,6 +182,36 @@ def refOffset (hostEnd key s0 : Rat) : Rat := hostEnd - (key + s0)
     `C07.epoch_dependent_chain3` shows what it breaks. -/
 def oldRefOffset (hostEnd key _s0 : Rat) : Rat := hostEnd - key
 
+/-- `ndarr_DTS_last_recv[k][0]`: row `k` of the `_sync_mb_recv` matrix belongs to permuted position
+    `k+1`; only its entry for the first kept group is used (`np.argmin` of a scalar is 0) -/
+def col0At (evs : List MEv) (cgs : List String) (tree : Bool) (np : Nat) (k : Nat) : Except String Rat := do
+  let row ← dtsEnd evs cgs (pmap tree np (k + 1)) 1
+  match row with
+  | [] => .error "indexerror"     -- rows have `cgs.length ≥ 1` entries
+  | x :: _ => pure x
+
+/-- the device-time reductions of `sync_last_send_recv` in evaluation order: column 0 of the
+    `_sync_mb_recv` matrix (rows = permuted positions 1 .. NP-1, only when NP > 2), the per-group last
+    send end (TS5) of position 0 and the per-group last receive (TS2) of position 1 -/
+def ends (evs : List MEv) (cgs : List String) (tree : Bool) (np : Nat) :
+    Except String (List Rat × List Rat × List Rat) := do
+  let col0 ← if 2 < np then (List.range (np - 1)).mapM (col0At evs cgs tree np) else pure []
+  let send ← dtsEnd evs cgs (pmap tree np 0) 4
+  let recv ← dtsEnd evs cgs (pmap tree np 1) 1
+  pure (col0, send, recv)
+
+/-- `_get_last_event_in_cg(0, idx, k)` and the two host fields read from it:
+    (`ts + dur`, `ts_dev[k]`) of rank 0's event with the greatest `ts_dev[k]` in the reference group -/
+def refPick (evs : List MEv) (cgRef : String) (k : Nat) : Except String (Rat × Rat) := do
+  let q := queue evs 0 cgRef
+  let keys ← q.mapM (tsDevAt k)
+  match lastMaxBy (List.zip keys q) with
+  | none => .error "indexerror"
+  | some (key, ev) =>
+    match ev.dur with
+    | some dur => pure (ev.ts + dur, key)
+    | none => .error "keyerror"
+
 /-- `mp_calibrate_dts` / `sync_last_send_recv`, parametrised by the reference-offset formula -/
 def calibrateG (rf : Rat → Rat → Rat → Rat) (evs : List MEv) : Except String Calib := do
   let cgs := keptGroups (collGroups evs)
@@ -190,28 +220,14 @@ def calibrateG (rf : Rat → Rat → Rat → Rat) (evs : List MEv) : Except Stri
   | [] => .error "assert"      -- `_mp_trace_sanity_check` (unreachable: `keptGroups` of a non-empty list is non-empty)
   | cg0 :: _ =>
     let tree := treeReduce evs cg0
-    -- `_sync_mb_recv`: rows for permuted positions 1 .. NP-1, column 0 is used
-    let rows ← if 2 < np then (List.range (np - 1)).mapM (fun k => dtsEnd evs cgs (pmap tree np (k + 1)) 1)
-               else pure []
-    let col0 := rows.map (fun r => r.headD 0)   -- every row has `cgs.length ≥ 1` entries
-    let send ← dtsEnd evs cgs (pmap tree np 0) 4
-    let recv ← dtsEnd evs cgs (pmap tree np 1) 1
+    let (col0, send, recv) ← ends evs cgs tree np
     let diff := List.zipWith (fun r s => r - s) recv send
     match argminBy (List.zip cgs diff) with
     | none => .error "valueerror"
     | some (cgRef, d) =>
       let shiftOf := fun (pid : Nat) => shiftAt tree col0 d (if tree then pid else np - 1 - pid)
-      let shifts := (List.range np).map shiftOf
-      -- `_get_last_event_in_cg(0, idx, k)`
-      let k := if tree then 4 else 1
-      let q := queue evs 0 cgRef
-      let keys ← q.mapM (tsDevAt k)
-      match lastMaxBy (List.zip keys q) with
-      | none => .error "indexerror"
-      | some (key, ev) =>
-        match ev.dur with
-        | some dur => pure { np := np, tree := tree, shifts := shifts, ref := rf (ev.ts + dur) key (shiftOf 0) }
-        | none => .error "keyerror"
+      let (hostEnd, key) ← refPick evs cgRef (if tree then 4 else 1)
+      pure { np := np, tree := tree, shifts := (List.range np).map shiftOf, ref := rf hostEnd key (shiftOf 0) }
 
 def calibrate : List MEv → Except String Calib := calibrateG refOffset
 
